@@ -399,7 +399,17 @@ func specOpt6OK(code int, v string, kind int) bool {
 //@   let a0 = string(data)
 //@   modifies op
 //@   ensures[accept] (err == nil) == (dhcpv4.SpecAcceptV4(a0))
-//@   ensures[msg] err == nil ==> op.Msg != nil
+//@   ensures[msg] err == nil ==> decodedV4(op.Msg)
+
+// what the decoder leaves in a DHCPv4-message option (the invariant its read-only uses rely on): a packet, with the
+// 4-byte address fields dhcpv4.FromBytes produces
+//@ define decodedV4(m) = m != nil && len(m.ClientIPAddr) == 4 && len(m.YourIPAddr) == 4 && len(m.ServerIPAddr) == 4 && len(m.GatewayIPAddr) == 4
+//@ contract (*OptDHCPv4Msg).ToBytes
+//@   requires decodedV4(op.Msg)
+//@ contract (*OptDHCPv4Msg).LongString
+//@   requires decodedV4(op.Msg)
+//@ contract (*OptDHCPv4Msg).String
+//@   requires decodedV4(op.Msg)
 
 //@ contract (*optClientArchType).FromBytes
 //@   let a0 = string(p)
